@@ -199,13 +199,31 @@ def check_empty(project: Project, rep):
                     construct=f"{tr.qualname}: empty input")
 
 
-def _same(a, b) -> bool:
+def _same(a, b):
+    """True / False when the two argument values can be compared, None when they cannot (an alternative of several values, an
+    unmodelled value): a difference between values that cannot be compared is no finding"""
+    from ..core.values import Alt, Unknown
     if a is b:
         return True
+    if isinstance(a, (Alt, Unknown)) or isinstance(b, (Alt, Unknown)):
+        return None
     if type(a) is not type(b):
         return False
     if isinstance(a, Sc):
         return a.e == b.e
+    if isinstance(a, Seq):
+        if len(a.items) != len(b.items):
+            return False
+        rs = [_same(x, y) for x, y in zip(a.items, b.items)]
+        return False if any(r is False for r in rs) else (None if any(r is None for r in rs) else True)
+    if isinstance(a, Arr):
+        if a.ndim != b.ndim or not all(x[0].same_size(y[0]) for x, y in zip(a.axes, b.axes)):
+            return False
+        eb = b.elem
+        for (sa, ia), (sb, ib) in zip(a.axes, b.axes):
+            if ia != ib:
+                eb = sym.subst_ivar(eb, ib, (ia, 0))
+        return a.elem == eb
     return repr(a) == repr(b)
 
 
@@ -275,13 +293,17 @@ def check_par_wrap(project: Project, rep):
     else:
         rep.unmodelled("AD-WRAP", tr, tr.node, f"lone diagram: {len(c1)} per-diagram calls, result {r1!r}"[:200])
     if len(c2) == 1 and which(c2[0]) == ["X"] and isinstance(r2, Seq) and len(r2.items) == 1 and uid(r2.items[0]) is not None:
-        same_args = all(_same(c1[0].get(p_), c2[0].get(p_)) for p_ in callee.params[1:]) if len(c1) == 1 else None
+        cmp_ = [_same(c1[0].get(p_), c2[0].get(p_)) for p_ in callee.params[1:]] if len(c1) == 1 else [None]
+        same_args = False if any(r is False for r in cmp_) else (None if any(r is None for r in cmp_) else True)
         if same_args:
             rep.discharged("AD-WRAP", tr, tr.node, "a one-element collection yields a one-element list holding the image "
                                                    "computed with the same parameters as for the lone diagram")
         elif same_args is False:
             rep.refuted("AD-WRAP", tr, tr.node, "a diagram passed alone and inside a collection is imaged with different "
                                                 "parameters", construct=f"{tr.qualname}: call-style parameters")
+        else:
+            rep.unmodelled("AD-WRAP", tr, tr.node, "the parameters of the per-diagram routine for a lone diagram and for a one-element "
+                                                   "collection could not be compared")
     elif len(c2) == 1 and uid(r2) is not None:
         rep.refuted("AD-WRAP", tr, tr.node, "a one-element collection is unwrapped like a lone diagram: a lone diagram and a "
                                             "one-element collection give differently shaped results than documented",
